@@ -84,7 +84,12 @@ def run(ctx):
     disagreements, violations = [], []
     nontriv = set()
     for (n, nc, c), m in zip(meta, model, strict=True):
-        conv = _convert_name_to_convention(n, NamingConvention.SAFE_DS if nc else NamingConvention.PYTHON, is_class_name=c)
+        try:
+            conv = _convert_name_to_convention(n, NamingConvention.SAFE_DS if nc else NamingConvention.PYTHON, is_class_name=c)
+        except Exception as e:  # noqa: BLE001
+            disagreements.append({"case": [n, nc, c], "impl": type(e).__name__, "model": m})
+            violations.append({"what": f"name conversion raises {type(e).__name__}", "input": [n, nc, c], "finding": None})
+            continue
         esc = _replace_if_safeds_keyword(conv)
         inte = is_internal(n)
         if [conv, esc, "1" if inte else "0"] != m:
